@@ -64,10 +64,25 @@ func main() {
 		if err != nil {
 			die("parse error: %v", err)
 		}
-		u := &unit{Spec: sp, File: file, Dir: filepath.Dir(sp.GoFile), Imports: map[string]string{}, Deps: map[string]bool{},
+		u := &unit{Spec: sp, File: file, Dir: filepath.Dir(sp.GoFile), Imports: map[string]string{}, Deps: map[string]bool{}, Consts: map[string]ast.Expr{},
 			Sha: fmt.Sprintf("%x", sha256.Sum256(src)), SrcLines: strings.Count(string(src), "\n")}
+		for _, d := range file.Decls {
+			if gd, ok := d.(*ast.GenDecl); ok && gd.Tok == token.CONST {
+				for _, sp := range gd.Specs {
+					vs := sp.(*ast.ValueSpec)
+					if len(vs.Names) == len(vs.Values) {
+						for i, n := range vs.Names {
+							u.Consts[n.Name] = vs.Values[i]
+						}
+					}
+				}
+			}
+		}
 		for _, im := range file.Imports {
 			p, _ := strconv.Unquote(im.Path.Value)
+			if p == "slices" && im.Name == nil {
+				u.Imports["slices"] = "<std>/slices"
+			}
 			if !strings.HasPrefix(p, modulePath+"/") {
 				continue
 			}
@@ -297,6 +312,9 @@ func (t *translator) collectFuncs() {
 			}
 			for _, p := range fieldList(fd.Type.Results) {
 				fi.Results = append(fi.Results, param{p.name, t.resolveType(p.typ, c)})
+			}
+			if ps := fd.Type.Params.List; len(ps) > 0 {
+				_, fi.Variadic = ps[len(ps)-1].Type.(*ast.Ellipsis)
 			}
 			for _, g := range t.funcs {
 				if g.Unit == u && g.Recv == fi.Recv && g.Name == name {
@@ -556,6 +574,9 @@ func (t *translator) emit(u *unit) string {
 	}
 	fmt.Fprintf(&b, "(* GENERATED by /verif/srcgen (srcgen -repo ... -out ...) -- DO NOT EDIT.\n")
 	fmt.Fprintf(&b, "   source: %s  (sha256 %s, %d lines)\n", u.Spec.GoFile, u.Sha, u.SrcLines)
+	if u.Spec.CapSlices {
+		fmt.Fprintf(&b, "   CAPACITY-AWARE unit: []T is GoSlice.slice (backing array up to the capacity + length); aliasing between\n   slices is NOT modelled; float32 factors are exact dyadic constants (ints below 2^24);\n")
+	}
 	fmt.Fprintf(&b, "   ints are Z (overflow is NOT modelled), the type parameter T is Z, []T is list Z, bool is bool;\n")
 	fmt.Fprintf(&b, "   index-out-of-range / nil panics are NOT modelled (ListAux.get / ListAux.set are total).\n")
 	fmt.Fprintf(&b, "   translated: %s\n", strings.Join(names, ", "))
@@ -573,6 +594,9 @@ func (t *translator) emit(u *unit) string {
 	sort.Strings(deps)
 	for _, d := range deps {
 		fmt.Fprintf(&b, "From GodsGen Require %s.\n", d)
+	}
+	if u.Spec.CapSlices {
+		fmt.Fprintf(&b, "From GodsGenProofs Require GoSlice. (* hand-written: slices with capacity, /verif/srcgen/coq/GoSlice.v *)\n")
 	}
 	fmt.Fprintf(&b, "Import ListNotations.\nLocal Open Scope Z_scope.\n\n")
 	for _, a := range u.Abs {
@@ -610,6 +634,9 @@ func (t *translator) emit(u *unit) string {
 		}
 		fmt.Fprintf(&b, " }.\n\n")
 	}
+	if u.UsesRT {
+		fmt.Fprintf(&b, "(* the capacity the Go runtime gives to a slice it allocates for n elements (slices.Clone, a reallocating\n   append / slices.Insert) is implementation-defined: a parameter *)\nSection Runtime.\nVariable alloc_cap : Z -> Z.\n\n")
+	}
 	if len(u.Abs) > 0 {
 		fmt.Fprintf(&b, "Section Wrapped.\n")
 		for _, a := range u.Abs {
@@ -624,6 +651,9 @@ func (t *translator) emit(u *unit) string {
 	}
 	if len(u.Abs) > 0 {
 		fmt.Fprintf(&b, "End Wrapped.\n\n")
+	}
+	if u.UsesRT {
+		fmt.Fprintf(&b, "End Runtime.\n\n")
 	}
 	fmt.Fprintf(&b, "Definition source_file : string := %s%%string.\n", strconv.Quote(u.Spec.GoFile))
 	sorted := append([]string(nil), names...)
